@@ -116,6 +116,55 @@ def run(src, tier, seed):
     else:
         res.ok(r, 'symToString computes the protected, disambiguated name on every path')
 
+    # ---- R3c the dumped header declares only what a reader may declare
+    r = res.rule('dump-header-declares-user-symbols', 'in Logic::dumpHeaderToFile every path that writes a (declare-const / (declare-fun line has established that the symbol is known to the user '
+                 '(abstract values such as @d2 are printed as (as @d2 S), which is not a symbol) and is not an ite symbol (a reserved word): otherwise the dumped query is not valid SMT-LIB', floor=1)
+    dh = fx.func('opensmt::Logic::dumpHeaderToFile')
+    loops = [l for l in walk(dh['body']) if l.get('k') == 'loop' and l.get('kind') == 'range' and any(x.get('k') == 'str' and 'declare-fun' in x.get('v', '') for x in walk(l['body']))]
+    if len(loops) != 1:
+        raise AnalysisBroken('dumpHeaderToFile: the loop that declares the symbols was not found')
+    from walk import Client as _Client, Engine as _Engine
+
+    class Decl(_Client):
+        def __init__(self, var):
+            self.var = var
+            self.bad = set()
+
+        def on_cond(self, atom, s, branch):
+            a = see_through(atom)
+            neg = False
+            while isinstance(a, dict) and a.get('k') == 'un' and a.get('op') == '!':
+                neg = not neg
+                a = see_through(a['e'])
+            if isinstance(a, dict) and a.get('k') == 'call' and a.get('a') and path_of(a['a'][0]) == self.var:
+                m_ = callee(a).split('::')[-1]
+                if m_ in ('isKnownToUser', 'isIte'):
+                    return s | {(m_, branch != neg)}
+            return s
+
+        def on_other(self, n, s):
+            return (s,)
+
+        def on_call(self, n, s):
+            if n.get('op') == '<<' and any(x.get('k') == 'str' and '(declare-' in x.get('v', '') and 'sort' not in x.get('v', '') for x in walk(n.get('a') or [])):
+                if ('isKnownToUser', True) not in s:
+                    self.bad.add('a symbol not known to the user (an abstract value)')
+                if ('isIte', False) not in s:
+                    self.bad.add('an ite symbol')
+            return (s,)
+    lp_ = loops[0]
+    c_ = Decl(lp_['var'])
+    pseudo = {'body': {'k': 'loop', 'kind': 'do', 'cond': {'k': 'lit', 'v': False, 't': 'bool'}, 'body': lp_['body'], 'ln': lp_.get('ln')}, 'lambdas': dh.get('lambdas', [])}
+    eng_ = _Engine(pseudo, c_)
+    eng_.run([frozenset()])
+    if eng_.broken:
+        raise AnalysisBroken('dumpHeaderToFile: %s' % eng_.broken)
+    if c_.bad:
+        res.bad(r, 'dump-declares-internal-symbol', fx.loc(dh, lp_.get('ln')), 'Logic::dumpHeaderToFile can write a declaration for %s: the dumped query then contains e.g. '
+                '(declare-const (as @d2 S) () S) or (declare-fun ite ...), which no SMT-LIB reader accepts' % ' and for '.join(sorted(c_.bad)))
+    else:
+        res.ok(r, 'dumpHeaderToFile declares only symbols known to the user that are not ite symbols')
+
     # ---- R4 let-dump: a node is printed only after every child that will be referred to by its ?def name has one
     r = res.rule('let-dump-postorder', 'in Logic::dumpWithLets every path through one iteration of the child scan on which the child has no definition yet and is of a kind that is '
                  'printed by its definition name raises the wait flag, so the parent is not printed with an empty operand', floor=2)
